@@ -431,13 +431,19 @@ MEMBER_OPS = ("g1_point_from_x|x=out.x", "g1_point_from_x|x=out.y", "g2_point_fr
 # multiply_doubleadd copies its base before the first write "where the algorithm needs the old value" (the property's third
 # mechanism), for affine bases too: an affine base kept in the storage that receives the projective result (a caller's union).
 OVERLAY_OPS = ("g1_doubleadd|base=out", "g2_doubleadd|base=out")
+# LQ-IBE decrypt writes the symmetric key into a caller's byte buffer after it has read its three inputs: the buffer may be the storage
+# of one of them (the ciphertext is no longer needed once the key is derived).
+LQ_OVERLAY_OPS = ("lqibe_decrypt|key=ct", "lqibe_decrypt|key=sk", "lqibe_decrypt|key=id")
 
 
 @st.composite
 def hash_alias_cases(draw):
-    op = draw(st.sampled_from(HASH_OPS + MEMBER_OPS + OVERLAY_OPS))
+    op = draw(st.sampled_from(HASH_OPS + MEMBER_OPS + OVERLAY_OPS + LQ_OVERLAY_OPS))
     n = 96 if op.startswith("g2") else 48
     from . import c05, c10
+    if op in LQ_OVERLAY_OPS:
+        return {"op": op, "h": draw(c10.hash_int(48, F.Q)), "stream": draw(st.binary(min_size=0, max_size=48)), "seed": draw(st.integers(0, 2**32)),
+                "len": draw(st.sampled_from((1, 16, 32, 64))), "cpp": draw(st.booleans())}
     if op in OVERLAY_OPS:
         g = int(op[1])
         kp, P = draw(c05.point(g))
@@ -457,6 +463,38 @@ def hash_alias_cases(draw):
 def check_hash_alias(ctx, lib, c):
     import ctypes
     op = c["op"]
+    if op in LQ_OVERLAY_OPS:
+        d = lib.dll
+        for nm in ("vf_lq_setup", "vf_lq_id", "vf_lq_keygen", "vf_lq_encrypt", "vf_lq_decrypt"):
+            getattr(d, nm).restype = None
+        g1a, g2a, g2sz = lib.sizeof("G1Affine"), lib.sizeof("G2Affine"), lib.sizeof("G2")
+        sizes = {"params": 2 * g2sz, "msk": 32, "id": g1a, "sk": g1a, "ct": g2a, "hash": 48, "sym1": 96, "sym2": 96, "over": max(g1a, g2a) + 64}
+        raw = {k: ctypes.create_string_buffer(sz + 64) for k, sz in sizes.items()}
+        P = {k: ctypes.c_void_p((ctypes.addressof(v) + 63) & ~63) for k, v in raw.items()}
+        n = c["len"]
+        d.vf_set_use_cpp(1 if c["cpp"] else 0)
+        try:
+            lib.set_random(c["stream"], c["seed"])
+            d.vf_lq_setup(P["params"], P["msk"])
+            ctypes.memmove(P["hash"], c["h"].to_bytes(48, "big"), 48)
+            d.vf_lq_id(P["id"], P["hash"])
+            d.vf_lq_keygen(P["sk"], P["msk"], P["id"])
+            d.vf_lq_encrypt(P["ct"], P["sym1"], ctypes.c_size_t(n), P["params"], P["id"])
+            d.vf_lq_decrypt(P["sym2"], ctypes.c_size_t(n), P["ct"], P["sk"], P["id"])
+            ref = ctypes.string_at(P["sym2"], n)
+            which = op.split("=")[1]
+            ctypes.memset(P["over"], 0xCD, sizes["over"])
+            ctypes.memmove(P["over"], P[which], sizes[which])
+            args = {"ct": P["ct"], "sk": P["sk"], "id": P["id"]}
+            args[which] = P["over"]
+            d.vf_lq_decrypt(P["over"], ctypes.c_size_t(n), args["ct"], args["sk"], args["id"])
+            got = ctypes.string_at(P["over"], n)
+        finally:
+            d.vf_set_use_cpp(0)
+        ctx.count(c, True, "overlay:%s" % op)
+        expect(ctypes.string_at(P["sym1"], n) == ref, "harness/lqibe-roundtrip", "decrypt does not reproduce the key of encrypt (C16 decides that)")
+        expect(got == ref, "overlay/%s" % op, lambda: "hash=%x len=%d: the key differs when the key buffer is the storage of the %s" % (c["h"], n, which))
+        return
     if op in OVERLAY_OPS:
         g = int(op[1])
         P = c["P"]
@@ -533,10 +571,10 @@ def prebuild(tier):
 
 
 def finish(evidence, agg):
-    cells = {k.replace(":found", "").replace(":none", ""): v for k, v in agg["classes"].items() if "|out=" in k or "|x=out" in k or "|base=out" in k}
+    cells = {k.replace(":found", "").replace(":none", ""): v for k, v in agg["classes"].items() if "|out=" in k or "|x=out" in k or "|base=out" in k or "|key=" in k}
     evidence["coverage"]["cells"] = len(cells)
     evidence["coverage"]["min_cell_count"] = min(cells.values()) if cells else 0
-    want = len(TABLE_CELLS) + len(IRREG) + len(CAPI_CELLS) + len(HASH_OPS) + len(MEMBER_OPS) + len(OVERLAY_OPS)
+    want = len(TABLE_CELLS) + len(IRREG) + len(CAPI_CELLS) + len(HASH_OPS) + len(MEMBER_OPS) + len(OVERLAY_OPS) + len(LQ_OVERLAY_OPS)
     evidence["coverage"]["cells_expected"] = want
     evidence["coverage"]["exhaustive"] = False
 
